@@ -69,6 +69,19 @@ Theorem C02_missing_handle : forall (s : fstate) (o : op) (i : nat),
 Proof. exact c02_missing_handle. Qed.
 Print Assumptions C02_missing_handle.
 
+(* closing a closed handle is an error (the closed one) and changes nothing, on both sides *)
+Theorem C02_close_closed : forall (s : fstate) (i : nat) (h : hnd),
+  nth_error (fhandles s) i = Some h -> hclosed h = true ->
+  mf_step s (HClose i) = (s, RErr (E KClosed)).
+Proof. exact c02_close_closed. Qed.
+Print Assumptions C02_close_closed.
+
+Theorem C02_spec_close_closed : forall (t : bstate) (i : nat) (b : bh),
+  nth_error (bhs t) i = Some b -> bclosed b = true ->
+  bf_step t (HClose i) = (t, PErr C_CLOSED).
+Proof. exact c02_spec_close_closed. Qed.
+Print Assumptions C02_spec_close_closed.
+
 (* the specification has the same property *)
 Theorem C02_spec_inert_handles : forall (t : bstate) (o : op) (i : nat),
   op_handle o = Some i ->
@@ -79,41 +92,75 @@ Print Assumptions C02_spec_inert_handles.
 
 (* 4. What the specification means ------------------------------------------------------------ *)
 
-(* the slice arithmetic of File.Write (both branches) is pwrite; of File.Truncate, ptrunc *)
+(* the slice arithmetic of File.Write (both branches) is pwrite for every payload it is reached
+   with, i.e. a non-empty one (File.Write returns before it when len(b) == 0); of File.Truncate,
+   ptrunc *)
 Theorem C02_go_write_is_pwrite : forall (data b : bytes) (cur : Z),
-  0 <= cur -> go_write data b cur = pwrite data (Z.to_nat cur) b.
+  0 <= cur -> b <> [] -> go_write data b cur = pwrite data (Z.to_nat cur) b.
 Proof. exact go_write_pwrite. Qed.
 Print Assumptions C02_go_write_is_pwrite.
+
+(* on the empty payload the slice arithmetic alone agrees with pwrite exactly up to EOF; past EOF
+   it zero-extends (the behaviour the early return in File.Write removed) *)
+Theorem C02_go_write_nil_within : forall (data : bytes) (cur : Z),
+  0 <= cur <= zlen data -> go_write data [] cur = pwrite data (Z.to_nat cur) [].
+Proof. exact go_write_nil_within. Qed.
+Print Assumptions C02_go_write_nil_within.
+
+Theorem C02_go_write_nil_beyond : forall (data : bytes) (cur : Z),
+  zlen data < cur ->
+  go_write data [] cur = data ++ zeros (Z.to_nat cur - length data) /\
+  go_write data [] cur <> pwrite data (Z.to_nat cur) [].
+Proof. exact go_write_nil_beyond. Qed.
+Print Assumptions C02_go_write_nil_beyond.
 
 Theorem C02_slice_is_pread : forall (data : bytes) (a k : Z),
   0 <= a -> 0 <= k -> slice data a (a + k) = pread data (Z.to_nat a) (Z.to_nat k).
 Proof. exact slice_pread. Qed.
 Print Assumptions C02_slice_is_pread.
 
+(* a zero-length write changes nothing, wherever it is *)
+Theorem C02_pwrite_nil : forall (data : bytes) (off : nat), pwrite data off [] = data.
+Proof. exact pwrite_nil. Qed.
+Print Assumptions C02_pwrite_nil.
+
 Theorem C02_pwrite_length : forall (data : bytes) (off : nat) (b : bytes),
-  length (pwrite data off b) = Nat.max (length data) (off + length b).
+  b <> [] -> length (pwrite data off b) = Nat.max (length data) (off + length b).
 Proof. exact pwrite_length. Qed.
 Print Assumptions C02_pwrite_length.
 
-(* bytes before off are untouched *)
+(* both cases in one statement; and a write never shrinks the file *)
+Theorem C02_pwrite_length_gen : forall (data : bytes) (off : nat) (b : bytes),
+  length (pwrite data off b) =
+  match b with [] => length data | _ => Nat.max (length data) (off + length b) end.
+Proof. exact pwrite_length_gen. Qed.
+Print Assumptions C02_pwrite_length_gen.
+
+Theorem C02_pwrite_length_ge : forall (data : bytes) (off : nat) (b : bytes),
+  (length data <= length (pwrite data off b))%nat.
+Proof. exact pwrite_length_ge. Qed.
+Print Assumptions C02_pwrite_length_ge.
+
+(* bytes before off are untouched (any payload, the empty one included) *)
 Theorem C02_pwrite_before : forall (data : bytes) (off : nat) (b : bytes),
   firstn (Nat.min off (length data)) (pwrite data off b) = firstn (Nat.min off (length data)) data.
 Proof. exact pwrite_before. Qed.
 Print Assumptions C02_pwrite_before.
 
-(* a gap between the old end of file and off is zero-filled *)
+(* a gap between the old end of file and off is zero-filled — by a write that writes something;
+   a zero-length write past EOF creates no gap (C02_pwrite_nil) *)
 Theorem C02_pwrite_gap_zero : forall (data : bytes) (off : nat) (b : bytes) (j : nat) (d : N),
-  (length data <= j < off)%nat -> nth j (pwrite data off b) d = 0%N.
+  b <> [] -> (length data <= j < off)%nat -> nth j (pwrite data off b) d = 0%N.
 Proof. exact pwrite_gap_zero. Qed.
 Print Assumptions C02_pwrite_gap_zero.
 
-(* the payload is there *)
+(* the payload is there (any payload) *)
 Theorem C02_pwrite_at : forall (data : bytes) (off : nat) (b : bytes),
   pread (pwrite data off b) off (length b) = b.
 Proof. exact pwrite_at. Qed.
 Print Assumptions C02_pwrite_at.
 
-(* bytes from off + |b| on are untouched *)
+(* bytes from off + |b| on are untouched (any payload) *)
 Theorem C02_pwrite_after : forall (data : bytes) (off : nat) (b : bytes),
   skipn (off + length b) (pwrite data off b) = skipn (off + length b) data.
 Proof. exact pwrite_after. Qed.
@@ -205,3 +252,34 @@ Example C02_ex3_wf_needed :
   snd (run_steps mf_step (mf_init [1;2;3]%N [(false,false)]) [HRead 0 (-1); HWrite 0 [7]%N])
   = [RData [] None; RPanic].
 Proof. vm_compute. reflexivity. Qed.
+
+(* zero-length writes past EOF (Write after a seek, WriteString, WriteAt) change neither the
+   content nor the size nor an offset, in the model and in the specification; a second Close
+   reports the closed error and changes nothing *)
+Definition C02_ops4 : list op :=
+  [HSeek 0 5 0; HWrite 0 []; HStat 0; HWriteString 0 []; HWriteAt 0 [] 9; HStat 0; HRead 1 8;
+   HWrite 0 [9]%N; HStat 0; HClose 0; HClose 0; HWrite 0 []; HWriteAt 0 [] (-1)].
+
+Example C02_ex4_model :
+  let '(s, outs) := run_steps mf_step (mf_init [1;2;3]%N [(false,false);(false,false)]) C02_ops4 in
+  fdata s = [1;2;3;0;0;9]%N /\ map hat (fhandles s) = [6; 3] /\
+  nth 10 outs ROk = RErr (E KClosed) /\
+  map (fun '(o, r) => proj o r) (combine C02_ops4 outs) =
+    [PPos 5; PCount 0; PSize 3; PCount 0; PCount 0; PSize 3; PBytes [1;2;3]%N false;
+     PCount 1; PSize 6; POk; PErr C_CLOSED; PErr C_CLOSED; PErr C_INVALID].
+Proof. vm_compute. repeat split; reflexivity. Qed.
+
+Example C02_ex4_spec :
+  let '(t, pouts) := bf_run (bf_init [1;2;3]%N [(false,false);(false,false)]) C02_ops4 in
+  bdata t = [1;2;3;0;0;9]%N /\ map bpos (bhs t) = [6; 3]%nat /\
+  pouts =
+    [PPos 5; PCount 0; PSize 3; PCount 0; PCount 0; PSize 3; PBytes [1;2;3]%N false;
+     PCount 1; PSize 6; POk; PErr C_CLOSED; PErr C_CLOSED; PErr C_INVALID].
+Proof. vm_compute. repeat split; reflexivity. Qed.
+
+(* the hypothesis b <> [] of C02_go_write_is_pwrite is needed: the slice arithmetic by itself
+   zero-extends on an empty payload past EOF, the specification does not *)
+Example C02_ex5_nonempty_needed :
+  go_write [1;2]%N [] 4 = [1;2;0;0]%N /\ pwrite [1;2]%N 4 [] = [1;2]%N /\
+  go_write [1;2]%N [] 1 = [1;2]%N.
+Proof. vm_compute. repeat split; reflexivity. Qed.
